@@ -47,25 +47,25 @@ Poseidon(w, hf, np, blk, alpha, dom) ==
 
 \* ---- quick tier -----------------------------------------------------------------------
 \* P = 17 (GEN 3, ALPHA 3): the base-field gates, exhaustive over all wires
-Cases17 == <<Arith(1, "full", "small"), BaseSum(2, 1), BaseSum(2, 2), BaseSum(2, 3), BaseSum(2, 4),
+Cases17 == <<Arith(1, "full", "tiny"), BaseSum(2, 1), BaseSum(2, 2), BaseSum(2, 3), BaseSum(2, 4),
              BaseSum(3, 1), BaseSum(3, 2), BaseSum(4, 1), BaseSum(4, 2), Constant(1), Constant(2),
              Expo(1), Expo(2), Expo(3), Expo(4), Ra(1, 1, 0, "full", "full"), Ra(1, 1, 1, "full", "small"),
              Ra(1, 2, 0, "small", "full"), Ra(2, 1, 0, "small", "full"), Noop, Lookup(2), LookupTable(2),
              MulExt(1, "small", "small"), Reducing(1, "small"), Coset(1, 2, "small")>>
 \* P = 5 (GEN 2, ALPHA 3): extension-field gates and joint uniqueness
-Cases5 == <<Expo(1), Expo(2), Expo(3), Arith(2, "tiny", "small"), ArithExt(1, "small", "small"),
-            MulExt(1, "full", "full"), Ra(2, 1, 0, "full", "full"), Ra(1, 2, 1, "small", "small"),
+Cases5 == <<Expo(1), Expo(2), Expo(3), Arith(2, "tiny", "small"), ArithExt(1, "small", "tiny"),
+            MulExt(1, "full", "small"), Ra(2, 1, 0, "full", "full"), Ra(1, 2, 1, "small", "small"),
             Reducing(1, "full"), Reducing(2, "small"), ReducingExt(1, "small"), ReducingExt(2, "tiny"),
             MdsG(3, "small"), MdsG(4, "tiny"), Pi, Constant(3), BaseSum(2, 2), BaseSum(4, 1),
             Coset(1, 2, "small"), Poseidon(3, 1, 1, 1, ALPHA, "full")>>
 \* P = 5: joint uniqueness (G2s) on the cases with at most 4 pinned wires
-CasesUniq == <<Expo(1), Expo(2), Expo(3), Arith(2, "small", "small"), MulExt(1, "small", "small"),
+CasesUniq == <<Expo(1), Expo(2), Expo(3), Arith(2, "tiny", "tiny"), MulExt(1, "small", "small"),
                Ra(1, 1, 0, "full", "full"), Ra(2, 1, 0, "tiny", "full"), Reducing(1, "small"), Reducing(2, "tiny"),
                ReducingExt(1, "tiny"), BaseSum(2, 2), BaseSum(4, 1), Constant(3), Coset(1, 2, "tiny")>>
 \* P = 5: the two expensive twins
-Cases5H == <<Coset(2, 2, "tiny"), Coset(2, 4, "tiny"), Poseidon(4, 2, 2, 1, ALPHA, "small")>>
+Cases5H == <<Coset(2, 2, "tiny"), Poseidon(4, 2, 2, 1, ALPHA, "small")>>
 \* ---- thorough tier additions ---------------------------------------------------------
-Cases5T == <<ArithExt(1, "full", "small"), Arith(2, "full", "small"), MulExt(2, "small", "small"),
+Cases5T == <<Coset(2, 4, "tiny"), MulExt(1, "full", "full"), ArithExt(1, "full", "small"), Arith(2, "full", "small"), MulExt(2, "small", "small"),
              Ra(1, 2, 1, "full", "small"), Ra(2, 2, 1, "tiny", "small"), Reducing(2, "full"), Reducing(3, "small"),
              ReducingExt(1, "full"), ReducingExt(2, "small"), MdsG(3, "full"), MdsG(4, "small"),
              Coset(1, 2, "full"), Coset(2, 3, "tiny"), Poseidon(4, 2, 2, 1, ALPHA, "full"),
@@ -79,7 +79,7 @@ Cases13T == <<MulExt(1, "small", "full"), Arith(1, "full", "small"), BaseSum(3, 
               Coset(1, 2, "small"), Coset(2, 4, "tiny"), Expo(3), Ra(3, 1, 0, "tiny", "full"),
               Reducing(2, "small"), ReducingExt(1, "small")>>
 \* P = 17
-Cases17T == <<Ra(2, 1, 0, "full", "full"), Pi, Coset(2, 3, "tiny"), Poseidon(4, 2, 2, 1, ALPHA, "small"),
+Cases17T == <<Arith(1, "full", "small"), Ra(2, 1, 0, "full", "full"), Pi, Coset(2, 3, "tiny"), Poseidon(4, 2, 2, 1, ALPHA, "small"),
               MdsG(4, "tiny"), Expo(6), Ra(3, 1, 0, "tiny", "full"), ArithExt(1, "small", "small")>>
 \* canary case lists (small, so that the mutant is found fast)
 CasesExpo == <<Expo(3)>>
@@ -110,7 +110,7 @@ DomOf(x, s) ==
     [] s.dom = "ltpow" -> 0..((IF IPow(x.b, s.n) < P THEN IPow(x.b, s.n) ELSE P) - 1)
     [] OTHER -> IF x.dom = "small" THEN Small ELSE IF x.dom = "tiny" THEN Tiny ELSE F
 ChoiceDom(x, k) ==
-  IF k <= NC(x) THEN (IF x.cdom = "small" THEN Small ELSE F)
+  IF k <= NC(x) THEN (IF x.cdom = "small" THEN Small ELSE IF x.cdom = "tiny" THEN Tiny ELSE F)
   ELSE IF k <= NC(x) + NH(x) THEN (IF x.dom = "full" THEN F ELSE Small)
   ELSE DomOf(x, InputSpec(x)[k - NC(x) - NH(x)])
 
@@ -152,6 +152,7 @@ DegVals(x, lp, m) ==
            Pattern(NH(x), lp[1] + 2, lp[2]), Pattern(NH(x), lp[2], lp[1] + 3),
            Pattern(NumWires(x), lp[1], lp[2] + 4), Pattern(NumWires(x), lp[2] + 2, lp[1] + 1), m)
 DegreeInv ==
+  (ch # <<>>) =>
   Let(DegVals(g, ch, Degree(g) + 1),
       LAMBDA vals : /\ Len(vals[1]) = NumConstraints(g)
                     /\ \A j \in 1..NumConstraints(g) : DegreeAtMost(vals, j, Degree(g) - DegShift))
@@ -184,8 +185,10 @@ Catalogue ==
 InitCat == /\ g \in SeqSet(Catalogue)
            /\ ch = <<>>
            /\ row = <<>>
-CatLayoutInv == LayoutOK(g)
-Emit == PrintT("REPLAY " \o ToJson([gate |-> g, nw |-> NumWires(g), nc |-> NumConsts(g),
+\* degree and catalogue in one run: catalogue states have ch = <<>>, degree states a line
+InitDegCat == InitDeg \/ InitCat
+CatLayoutInv == (ch = <<>>) => LayoutOK(g)
+Emit == (ch = <<>>) => PrintT("REPLAY " \o ToJson([gate |-> g, nw |-> NumWires(g), nc |-> NumConsts(g),
                                     ncon |-> NumConstraints(g), deg |-> Degree(g), nh |-> NumHash(g),
                                     inputs |-> InputSpec(g), written |-> Written(g), filled |-> Filled(g),
                                     delegated |-> Delegated(g), other |-> Other(g), pinned |-> Pinned(g)]))
